@@ -219,11 +219,28 @@ def c11(ctx, spec):
     ctx.extra['digests_compared_across_pointer_types'] = compared
     if compared < n: ctx.inconclusive.append('only %d digests compared across pointer types' % compared)
 
+# ---------------------------------------------------------------------------------------------- C16
+def c16(ctx, spec):
+    cfgs = [(d, r) for d in (1, 2, 3) for r in range(6)]
+    ctx.build([dict(name='c16_d%d_r%d' % (d, r), src='harness/c16_const.cpp', cfg='dbg', flags=['-O0'], defs=['C16_D=%d' % d, 'C16_ROOT=%d' % r]) for (d, r) in cfgs])
+    for (d, r) in cfgs: ctx.run_sharded('c16_d%d_r%d' % (d, r), 1, shards=1)
+    ctx.extra['explanation'] = spec['explanation']
+    ctx.extra['_distinct_extra'] = ctx.counters.get('paths_classified', 0)   # every classified access path is a distinct case (path x terminal x root kind x D)
+    ctx.evaluations += ctx.counters.get('paths_classified', 0)
+
 HIST_RULE = ('histories (3..12 steps quick, ..40 thorough) over a pool of 4 owning arrays of one (element type, rank, allocator traits): 26 operation kinds (sizing/fill/allocator-extended/copy/move/view/init-list/iterator constructors, copy/move/self assignment over '
              'every prior state, assignment from views/other element type/init lists/ranges, swap, decay, 3 reextent overloads, clear, ={}, reshape, assign(first,last), element writes, destroy); unique ids as values; extents 0..3. '
              'After EVERY step: each live array vs. its model value, storage ranges pairwise disjoint, live-object registry == sum of num_elements, outstanding blocks == non-empty arrays with matching sizes, block owner == get_allocator(), get_allocator() == what the traits prescribe. ')
 
 REGISTRY = {
+    'C16': dict(fn=c16, level='other',
+                explanation='Whether an expression is well-formed / yields a modifiable reference is decided by the compiler, not by an execution; runtime monitoring can only observe it indirectly. This check therefore instantiates, for each root kind {array const, array, static_array const, array_ref const, view held by auto const&, view held by auto&&} and D 1..3, '
+                            'every access path made of up to 2 view-forming steps (15 kinds) followed by one of 13 terminal accessors (chained [], call syntax, *begin(), begin()[0], *cbegin(), cbegin()[0], elements()[0], *elements().begin(), elements().front(), front(), back(), home() cursor, as_const), classifies the element expression with std::is_assignable and records it as a run-time event; '
+                            'monitor: const roots, cbegin paths and as_const paths must never be assignable; every write found possible from a mutable root is executed and must change exactly one element of the root; views and array_refs must not be copy-constructible. Trusted base: the compiler\'s overload resolution as surfaced by type traits. '
+                            'Steps are applied by rank/constness rules (never by blind detection) because rejected writes are hard errors in this library.',
+                rule='finite enumeration of access paths of depth <= 3 (see explanation); distinct = each (root kind, D, path, terminal); non-trivial = all',
+                assumptions=['compile-time facts are surfaced through std::is_assignable / std::is_copy_constructible', 'steps that do not compile on the pinned tree (strided/dropped/taked/reversed() const& of D>1 views) are excluded by rule'],
+                technique='runtime classification of instantiated access paths (type-trait probes) + executed writes'),
     'C11': dict(fn=c11, level='exploration',
                 rule='one harness TU is built three times: over T* / std::allocator, over a minimal fancy pointer holding an opaque address with NO conversion to or from T* (plus its allocator), and over the same pointer with bounds + provenance checked on every dereference. '
                      'Each case runs a random view program (as C01) over array_ref<int,D,P> and then owning arrays array<int,D,A> and array<std::string,D,A> (copy, ==, <, sort rows, reverse/rotate elements(), 3 reextents, view assignment, swap, move, clear, empty and zero-extent arrays, construction from rotated views): '
